@@ -159,6 +159,26 @@ def _matrix():
                     else:
                         ok = len(counter) >= 2 and exc_ok is None and isinstance(exc_bad, icontract.ViolationError)
                     note(cell, ok, "enabled contract not enforced: calls=%d exc=%r/%r" % (len(counter), exc_ok, exc_bad))
+        if not exp:
+            # a disabled decorator must return the very object also when it is given a descriptor object
+            for deco in ("require", "ensure", "snapshot"):
+                for kind, mk in (("staticmethod_object", staticmethod), ("classmethod_object", classmethod), ("property_object", property)):
+
+                    def plain(*a):
+                        return 1
+
+                    given = mk(plain)
+                    if deco == "require":
+                        dec = icontract.require(lambda: True, **_kw(form))
+                    elif deco == "ensure":
+                        dec = icontract.ensure(lambda result: True, **_kw(form))
+                    else:
+                        dec = icontract.snapshot(lambda: 1, name="sy", **_kw(form))
+                    try:
+                        got = dec(given)
+                        note([deco, form, kind], got is given, "disabled decorator did not return the given %s" % kind)
+                    except BaseException as e:  # pylint: disable=broad-except
+                        note([deco, form, kind], False, "disabled decorator raised %r" % e)
         for kind in ("plain", "dbc", "dataclass", "slots"):
             cell = ["invariant", form, kind]
             counter = []
@@ -339,6 +359,37 @@ def worker(argv):
         if ra.digest() != rb.digest() or hit:
             mism.append({"index": i, "disabled": disabled, "evaluated_although_disabled": hit, "digest_with": ra.digest(), "digest_without": rb.digest(), "world": w, "tickets": tickets})
     out["mixed"] = {"compared": ncmp, "mismatches": mism[:3], "n_mismatches": len(mism)}
+    # D: the violation messages of the (explicitly enabled) fixture contracts of C20, to be compared across configurations
+    import copy as _copy
+
+    sys.path.insert(0, os.path.join(VERIF, "fixtures"))
+    import icontract
+    import lambda_contracts as L
+
+    msgs = {}
+    for case in L.CASES:
+        kwargs = dict(case["kwargs"])
+        if "fresh" in case:
+            kwargs.update(_copy.deepcopy(case["fresh"]))
+        try:
+            if "self" in case:
+                o = getattr(L, case["self"][0])(*_copy.deepcopy(case["self"][1]))
+                r = getattr(o, case["fn"].split(".")[1])(*case["args"], **kwargs)
+            else:
+                r = getattr(L, case["fn"])(*case["args"], **kwargs)
+            if inspect.iscoroutine(r):
+                import simloop
+
+                async def _aw(r=r):
+                    return await r
+
+                simloop.run_in_loop(_aw, contextvars.Context())
+            msgs[case["id"]] = "NO-VIOLATION"
+        except icontract.ViolationError as e:
+            msgs[case["id"]] = str(e)
+        except Exception as e:  # pylint: disable=broad-except
+            msgs[case["id"]] = "%s: %s" % (type(e).__name__, str(e)[:200])
+    out["messages"] = msgs
     sys.stdout.write("C15WORKER " + json.dumps(out, default=str) + "\n")
     return 0
 
@@ -392,6 +443,14 @@ def main_check(tier, seed):
                 diff = [i for i in range(min(len(a), len(lst))) if a[i] != lst[i]]
                 if diff or len(a) != len(lst):
                     violations.append({"rule": "C15.R2", "classifier": "digest-differs:%s:%s" % (cfg, pid), "detail": {"engine": pid, "first_index": diff[:5], "reference": a[diff[0]] if diff else None, "here": lst[diff[0]] if diff else None}, "config": cfg})
+    if results:
+        ref_msgs = results[0][2].get("messages") or {}
+        for mode, slow, res in results[1:]:
+            cfg = "%s/%s" % ("".join(mode) or "normal", "unset" if slow is None else ("empty" if slow == "" else "set"))
+            for cid, msg in sorted((res.get("messages") or {}).items()):
+                if ref_msgs.get(cid) != msg:
+                    violations.append({"rule": "C15.R2", "classifier": "message-of-enabled-contract-differs:%s" % cfg, "detail": {"case": cid, "reference": (ref_msgs.get(cid) or "")[:300], "here": msg[:300]}, "config": cfg})
+                    break
     digests = set()
     nruns = 0
     for mode, slow, res in results:
